@@ -242,3 +242,16 @@ Theorem C02_src_anchored_hostname_end_no_index_panic : forall (fh host : str) (w
   Struct_Matchers_Proofs.interp_ahe fh host w e <> None.
 Proof. exact Struct_Matchers_Proofs.interp_ahe_never_stuck. Qed.
 Print Assumptions C02_src_anchored_hostname_end_no_index_panic.
+
+(* `get_url_after_anchor`: the scheme separator, the authority terminators and the userinfo
+   separator are read off the source (Generated.AfterGen); the search for the request hostname
+   starts where the model says, for every URL *)
+Theorem C02_src_host_search_start_is_model : forall url : str,
+  Struct_Matchers_Proofs.interp_host_search_start url = host_search_start url.
+Proof. exact Struct_Matchers_Proofs.interp_host_search_start_is_model. Qed.
+Print Assumptions C02_src_host_search_start_is_model.
+
+Theorem C02_src_get_url_after_anchor_is_model : forall (url h : str) (a : nat),
+  Struct_Matchers_Proofs.interp_get_url_after_anchor url h a = get_url_after_anchor url h a.
+Proof. exact Struct_Matchers_Proofs.interp_get_url_after_anchor_is_model. Qed.
+Print Assumptions C02_src_get_url_after_anchor_is_model.
